@@ -164,7 +164,9 @@ func (g *c19G) pick(label string, n int) int {
 	g.n++
 	return rapid.IntRange(0, n-1).Draw(g.t, fmt.Sprintf("%s#%d", label, g.n))
 }
-func (g *c19G) chance(label string, num, den int) bool { return g.pick(label, den) < num }
+// chance is true with probability num/den; the minimal draw (what shrinking
+// tends to) is false, so optional extras disappear while shrinking.
+func (g *c19G) chance(label string, num, den int) bool { return g.pick(label, den) >= den-num }
 func (g *c19G) oneOf(label string, xs ...string) string { return xs[g.pick(label, len(xs))] }
 
 // c19FullyDecode percent-decodes s until nothing changes (invalid escapes are kept).
@@ -396,7 +398,7 @@ func c19Render(fs []c19KV) string {
 func (g *c19G) validFields(r c19Route, scenarioName string) []c19KV {
 	var out []c19KV
 	for _, f := range r.Fields {
-		if f.Opt && g.chance("opt", 1, 2) {
+		if f.Opt && !g.chance("opt", 1, 2) {
 			continue
 		}
 		v := f.V
@@ -421,6 +423,14 @@ func (g *c19G) validFields(r c19Route, scenarioName string) []c19KV {
 			if g.chance("altid", 1, 2) {
 				v = c19Q(g.idName(true))
 			}
+		case "int":
+			if c19IsCreate(r) && g.chance("cfgx", 1, 3) { // configuration extremes on an otherwise valid create
+				v = g.oneOf("cfg", "1", "2", "0", "-1", "3", "1000000", "4611686018427387904", "9223372036854775807", "-9223372036854775808")
+			}
+		case "vec":
+			if g.chance("altvec", 1, 4) {
+				v = g.oneOf("vv", `[0,0,0]`, `[1,2,3]`, `[-1,0.5,1e-3]`, `[1e38,1e38,1e38]`, `[1,2]`, `[0.1,0.2,0.3,0.4]`, `[-0.0,1e-45,3.4e38]`)
+			}
 		case "str":
 			switch f.N {
 			case "metric":
@@ -443,7 +453,7 @@ func (g *c19G) validFields(r c19Route, scenarioName string) []c19KV {
 // mutate applies one mutation; returns its class label.
 func (g *c19G) mutate(fs *[]c19KV, r c19Route) string {
 	f := *fs
-	op := g.pick("mut", 14)
+	op := c19MutDeck[g.pick("mut", len(c19MutDeck))]
 	if len(f) == 0 && op != 7 && op != 11 {
 		op = 11
 	}
@@ -554,9 +564,9 @@ func (g *c19G) mutate(fs *[]c19KV, r c19Route) string {
 				return "limit-dim"
 			}
 		}
-		i := idx("int")
-		f[i].v = `10001`
-		return "number-extreme"
+		i := g.pick("fi", len(f))
+		f[i].v = c19Aliens[g.pick("alien", len(c19Aliens))]
+		return "type-change"
 	default:
 		i := idx("filter", "strs", "str")
 		switch f[i].kind {
@@ -624,7 +634,7 @@ func (g *c19G) target(r c19Route, scenarioName string) string {
 func (g *c19G) request(r c19Route, scenarioName string, allowMut bool) c19Req {
 	g.dotdot = 6
 	req := c19Req{Method: r.Method, Route: r.Method + " " + r.Path}
-	req.Target = g.target(r, scenarioName)
+	req.Target = g.knownTarget(g.target(r, scenarioName))
 	if r.Fields == nil {
 		if g.chance("stray", 1, 8) { // a body on a route that does not read one
 			req.Body = g.oneOf("straybody", `{"index_name":"fx"}`, `not json`, `{`, `[]`)
@@ -687,20 +697,48 @@ func c19RouteByPath(method, path string) c19Route {
 	panic("c19: no route " + method + " " + path)
 }
 
-func (g *c19G) weightedRoute() c19Route {
-	total := 0
-	for _, r := range c19Routes {
-		total += r.W
-	}
-	x := g.pick("route", total)
-	for _, r := range c19Routes {
-		if x < r.W {
-			return r
+// c19Deck expands weights into a deck of indices and spreads equal indices
+// apart (fixed stride permutation), so that rapid's preference for small draw
+// values does not concentrate on the first table entries.
+func c19Deck(weights []int) []int {
+	var deck []int
+	for i, w := range weights {
+		for j := 0; j < w; j++ {
+			deck = append(deck, i)
 		}
-		x -= r.W
 	}
-	return c19Routes[0]
+	n := len(deck)
+	stride := n/2 + 1
+	gcd := func(a, b int) int {
+		for b != 0 {
+			a, b = b, a%b
+		}
+		return a
+	}
+	for gcd(stride, n) != 1 {
+		stride++
+	}
+	out := make([]int, n)
+	for i := range out {
+		out[i] = deck[(i*stride+3)%n]
+	}
+	return out
 }
+
+var c19RouteDeck = func() []int {
+	w := make([]int, len(c19Routes))
+	for i, r := range c19Routes {
+		w[i] = r.W
+	}
+	return c19Deck(w)
+}()
+
+func (g *c19G) weightedRoute() c19Route {
+	return c19Routes[c19RouteDeck[g.pick("route", len(c19RouteDeck))]]
+}
+
+// mutation operators and their weights (index = operator number in mutate)
+var c19MutDeck = c19Deck([]int{3, 4, 3, 3, 4, 3, 2, 2, 3, 2, 4, 4, 4, 3})
 
 // c19GenCase: one case = 1..6 requests. Three shapes: independent requests;
 // an index life-cycle scenario on one (possibly path-grammar) name: create,
@@ -710,7 +748,7 @@ func c19GenCase() *rapid.Generator[c19Case] {
 		g := &c19G{t: t}
 		c := c19Case{}
 		c.Restart = g.chance("restart", 1, 6)
-		switch shape := g.pick("shape", 10); {
+		switch shape := 9 - g.pick("shape", 10); { // the minimal draw selects independent requests
 		case shape < 3: // life-cycle scenario
 			g.dotdot = 6
 			name := g.oneOf("scn", "n1", "a/b", "")
@@ -746,6 +784,32 @@ func c19GenCase() *rapid.Generator[c19Case] {
 			if len(c.Reqs) > 6 {
 				c.Reqs = append(c.Reqs[:5], c.Reqs[len(c.Reqs)-1])
 			}
+		case shape < 4 && g.chance("lim", 1, 2): // a published limit, alone or after a valid neighbour
+			type lim struct{ path, field, gen string }
+			l := []lim{{"/vector/actions/search", "k", ""}, {"/vector/actions/search-with-scores", "k", ""}, {"/vector/actions/add-batch", "vectors", "batch"},
+				{"/vector/actions/import", "vectors", "batch"}, {"/vector/actions/add", "vector", "dim"}}[g.pick("limr", 5)]
+			r := c19RouteByPath("POST", l.path)
+			g.dotdot = 6
+			fs := g.validFields(r, g.oneOf("limix", "fx", "fx", "fe", "nope"))
+			for i := range fs {
+				if fs[i].k != l.field {
+					continue
+				}
+				switch l.gen {
+				case "":
+					fs[i].v = g.oneOf("klim", "10001", "10001", "10000", "50000", "9223372036854775807", "10002")
+				case "batch":
+					fs[i].v = "\x00gen:batch:" + g.oneOf("blim", "50001", "50001", "60000", "50002")
+				case "dim":
+					fs[i].v = "\x00gen:dim:" + g.oneOf("dlim", "65537", "65537", "65536", "70000")
+				}
+			}
+			req := c19Req{Method: "POST", Route: "POST " + l.path, Target: l.path, Mut: []string{"limit-" + l.field}}
+			req.Body, req.Gen = c19Finish(fs)
+			if g.chance("pre", 1, 3) {
+				c.Reqs = append(c.Reqs, g.request(r, "", false))
+			}
+			c.Reqs = append(c.Reqs, req)
 		case shape < 4: // burst on one route
 			r := g.weightedRoute()
 			for i, n := 0, 2+g.pick("burst", 4); i < n; i++ {
